@@ -5,6 +5,7 @@
 // the element sequence in order to a model memory and a model external memory; compared: the whole 512 KiB DSP memory
 // image, the ordered external access log, the DMA interrupt.
 #include "shared_memory.h"
+#include "teakra/teakra_c.h"
 #include "sysinst.h"
 #include "vf.h"
 
@@ -515,6 +516,143 @@ vf::Result check(const Case& cs) {
     return vf::Result::pass();
 }
 
+// ---- c_binding_ahbm: external accesses through the C binding ---------------------------------------------------------------
+// The same small history (AHBM channel configuration, host AHBM accessors, double-word / word DMA transfers between DSP memory
+// and external memory) drives a C++ facade instance and a C-binding context whose six external-memory callbacks are C function
+// pointers: the ordered external access logs (kind, width, address, value) and every returned value must be identical.
+struct XOp {
+    unsigned kind = 0; // 0 configure AHBM channel, 1..4 host accessors, 5 DMA dsp->ext, 6 DMA ext->dsp
+    uint32_t a = 0;
+    uint16_t v = 0;
+};
+using XCase = std::vector<XOp>;
+std::string xencode(const XCase& c) {
+    std::string s;
+    for (auto& op : c)
+        s += "x " + vf::hex(op.kind) + " " + vf::hex(op.a) + " " + vf::hex(op.v) + "\n";
+    return s;
+}
+XCase xdecode(const std::string& text) {
+    XCase c;
+    for (auto& l : vf::lines(text)) {
+        auto t = vf::split_ws(l);
+        if (t.size() >= 4 && t[0] == "x")
+            c.push_back({(unsigned)vf::unhex(t[1]) % 7, (uint32_t)vf::unhex(t[2]), (uint16_t)vf::unhex(t[3])});
+    }
+    return c;
+}
+struct CWorld {
+    sysinst::ExtMem ext;
+    std::vector<ExtEvent> log;
+};
+vf::Result xcheck(const XCase& cs) {
+    static Teakra::Teakra* cpp = new Teakra::Teakra(Teakra::UserConfig{});
+    static TeakraContext* cb = Teakra_Create();
+    static CWorld wc, wb;
+    static bool installed = false;
+    if (!installed) {
+        installed = true;
+        Teakra::AHBMCallback k;
+        k.read8 = [](uint32_t a) { uint8_t v = wc.ext.get(a); wc.log.push_back({'r', 8, a, v}); return v; };
+        k.write8 = [](uint32_t a, uint8_t v) { wc.log.push_back({'w', 8, a, v}); wc.ext.put(a, v); };
+        k.read16 = [](uint32_t a) { uint16_t v = (uint16_t)(wc.ext.get(a) | (wc.ext.get(a + 1) << 8)); wc.log.push_back({'r', 16, a, v}); return v; };
+        k.write16 = [](uint32_t a, uint16_t v) { wc.log.push_back({'w', 16, a, v}); wc.ext.put(a, (uint8_t)v); wc.ext.put(a + 1, (uint8_t)(v >> 8)); };
+        k.read32 = [](uint32_t a) { uint32_t v = 0; for (int i = 0; i < 4; ++i) v |= (uint32_t)wc.ext.get(a + i) << (8 * i); wc.log.push_back({'r', 32, a, v}); return v; };
+        k.write32 = [](uint32_t a, uint32_t v) { wc.log.push_back({'w', 32, a, v}); for (int i = 0; i < 4; ++i) wc.ext.put(a + i, (uint8_t)(v >> (8 * i))); };
+        cpp->SetAHBMCallback(k);
+        Teakra_SetAHBMCallback(
+            cb, [](void* u, uint32_t a) { auto& w = *(CWorld*)u; uint8_t v = w.ext.get(a); w.log.push_back({'r', 8, a, v}); return v; },
+            [](void* u, uint32_t a, uint8_t v) { auto& w = *(CWorld*)u; w.log.push_back({'w', 8, a, v}); w.ext.put(a, v); },
+            [](void* u, uint32_t a) { auto& w = *(CWorld*)u; uint16_t v = (uint16_t)(w.ext.get(a) | (w.ext.get(a + 1) << 8)); w.log.push_back({'r', 16, a, v}); return v; },
+            [](void* u, uint32_t a, uint16_t v) { auto& w = *(CWorld*)u; w.log.push_back({'w', 16, a, v}); w.ext.put(a, (uint8_t)v); w.ext.put(a + 1, (uint8_t)(v >> 8)); },
+            [](void* u, uint32_t a) { auto& w = *(CWorld*)u; uint32_t v = 0; for (int i = 0; i < 4; ++i) v |= (uint32_t)w.ext.get(a + i) << (8 * i); w.log.push_back({'r', 32, a, v}); return v; },
+            [](void* u, uint32_t a, uint32_t v) { auto& w = *(CWorld*)u; w.log.push_back({'w', 32, a, v}); for (int i = 0; i < 4; ++i) w.ext.put(a + i, (uint8_t)(v >> (8 * i))); },
+            &wb);
+    }
+    cpp->Reset();
+    Teakra_Reset(cb);
+    wc = CWorld();
+    wb = CWorld();
+    std::string trace;
+    auto W = [&](uint16_t off, uint16_t v) {
+        cpp->MMIOWrite(off, v);
+        Teakra_MMIOWrite(cb, off, v);
+    };
+    bool any_ext = false;
+    for (size_t i = 0; i < cs.size(); ++i) {
+        const XOp& op = cs[i];
+        uint32_t ra = 0, rb = 0;
+        const uint32_t addr = 0x20000000u + ((op.a & 0xFFF) << 2);
+        switch (op.kind) {
+        case 0: { // AHBM channel k: unit size, burst, direction, connected DMA channel
+            unsigned k = op.a % 3;
+            W((uint16_t)(0x0E2 + 6 * k), (uint16_t)((((op.v >> 2) % 3) << 4) | (((op.v >> 4) % 3) << 1)));
+            W((uint16_t)(0x0E4 + 6 * k), (uint16_t)((op.v & 1) << 8));
+            W((uint16_t)(0x0E6 + 6 * k), (uint16_t)(1u << ((op.v >> 8) % 8)));
+            trace += "cfg" + std::to_string(k) + " ";
+            break;
+        }
+        case 1:
+            ra = cpp->AHBMRead16(addr), rb = Teakra_AHBMRead16(cb, addr), trace += "hr16 ";
+            break;
+        case 2:
+            cpp->AHBMWrite16(addr, op.v), Teakra_AHBMWrite16(cb, addr, op.v), trace += "hw16 ";
+            break;
+        case 3:
+            ra = cpp->AHBMRead32(addr), rb = Teakra_AHBMRead32(cb, addr), trace += "hr32 ";
+            break;
+        case 4:
+            cpp->AHBMWrite32(addr, 0x10001u * op.v + 0x00A50000u), Teakra_AHBMWrite32(cb, addr, 0x10001u * op.v + 0x00A50000u), trace += "hw32 ";
+            break;
+        default: { // a short transfer between DSP data memory and external memory on DMA channel ch, word or double word
+            const bool to_ext = op.kind == 5, dw = (op.v >> 1) & 1;
+            const unsigned ch = (op.v >> 8) % 8, n = 1 + (op.v >> 4) % 4;
+            for (unsigned k = 0; k < 2 * n; ++k) {
+                cpp->DataWriteA32(0x4000 + k, (uint16_t)(op.v * 3 + k));
+                Teakra_DataWriteA32(cb, 0x4000 + k, (uint16_t)(op.v * 3 + k));
+            }
+            W(0x1BE, (uint16_t)ch);
+            W(0x1C0, (uint16_t)(to_ext ? 0x4000 : (addr & 0xFFFF)));
+            W(0x1C2, (uint16_t)(to_ext ? 0 : (addr >> 16)));
+            W(0x1C4, (uint16_t)(to_ext ? (addr & 0xFFFF) : 0x4100));
+            W(0x1C6, (uint16_t)(to_ext ? (addr >> 16) : 0));
+            W(0x1C8, (uint16_t)(dw ? 2 * n : n));
+            W(0x1CA, 1);
+            W(0x1CC, 1);
+            W(0x1CE, (uint16_t)(to_ext ? (dw ? 2 : 1) : (dw ? 4 : 2)));
+            W(0x1D0, (uint16_t)(to_ext ? (dw ? 4 : 2) : (dw ? 2 : 1)));
+            W(0x1DA, (uint16_t)((to_ext ? 0x70 : 0x07) | (dw ? 0x0400 : 0)));
+            cpp->MMIOWrite(0x1DE, 0x40C0);
+            Teakra_MMIOWrite(cb, 0x1DE, 0x40C0);
+            trace += std::string(to_ext ? "dma>ext" : "dma<ext") + (dw ? "32 " : "16 ");
+            break;
+        }
+        }
+        auto fail = [&](const std::string& sig, const std::string& what) { return vf::Result::fail(sig, what + " at op " + std::to_string(i) + " (" + trace + ")"); };
+        if (ra != rb)
+            return fail("C13:cbinding:value:" + std::to_string(op.kind), "the C binding returned " + vf::hex(rb) + " where the C++ API returned " + vf::hex(ra));
+        if (wc.log.size() != wb.log.size() || !std::equal(wc.log.begin(), wc.log.end(), wb.log.begin())) {
+            size_t k = 0;
+            while (k < wc.log.size() && k < wb.log.size() && wc.log[k] == wb.log[k])
+                ++k;
+            auto sh = [](const ExtEvent& e) { return std::string(1, e.kind) + std::to_string(e.bits) + "@" + vf::hex(e.addr) + "=" + vf::hex(e.value); };
+            return fail("C13:cbinding:extlog", "external access " + std::to_string(k) + " through the C binding is " + (k < wb.log.size() ? sh(wb.log[k]) : std::string("(missing)")) +
+                                                   ", through the C++ API " + (k < wc.log.size() ? sh(wc.log[k]) : std::string("(missing)")));
+        }
+        any_ext = any_ext || !wc.log.empty();
+    }
+    if (std::memcmp(cpp->GetDspMemory(), Teakra_GetDspMemory(cb), Teakra::DspMemorySize) != 0)
+        return vf::Result::fail("C13:cbinding:memory", "DSP memory differs between the C-binding instance and the C++ one (" + trace + ")");
+    vf::klass("c_binding_ahbm: same history through the C binding and the C++ API");
+    vf::note(vf::hash_str(xencode(cs)) ^ 0xCB13, any_ext);
+    return vf::Result::pass();
+}
+rc::Gen<XCase> genXCase() {
+    using namespace rc;
+    return gen::container<XCase>(gen::map(gen::tuple(vf::range<unsigned>(0, 7), gen::resize(100, gen::arbitrary<uint32_t>()), vf::u16b()),
+                                          [](std::tuple<unsigned, uint32_t, uint16_t> t) { return XOp{std::get<0>(t), std::get<1>(t), std::get<2>(t)}; }));
+}
+
 } // namespace
 
 int main(int argc, char** argv) {
@@ -538,6 +676,16 @@ int main(int argc, char** argv) {
     p.encode = encode;
     p.decode = decode;
     p.max_size = 6;
+    p.share = 0.9;
     vf::run(p);
+    vf::Property<XCase> x;
+    x.name = "c_binding_ahbm";
+    x.gen = [] { return genXCase(); };
+    x.check = xcheck;
+    x.encode = xencode;
+    x.decode = xdecode;
+    x.max_size = 30;
+    x.share = 0.1;
+    vf::run(x);
     return vf::finish();
 }
